@@ -354,6 +354,14 @@ lru_seq!(c17_hist_c3_t1_tl_a, 3, 4, [T1 TL A]);
 lru_seq!(c17_hist_c3_t1_th_a, 3, 4, [T1 TH A]);
 lru_seq!(c17_hist_c3_t1_r_a, 3, 4, [T1 R A]);
 lru_seq!(c17_hist_c3_t1_x_a, 3, 4, [T1 X A]);
+// @end
+// (capacity-3 histories starting with key 2 or 3 are data-renamings of those starting with key 0 or 1 up to the
+// concrete key bytes; they run in the thorough tier to keep the quick tier under ten minutes)
+// @family prop=C17 tier=thorough timeout=1800 mem=24 role=history-len3-c3-first-key-variants
+// @bounds capacity in the name (c1,c2,c3) with key alphabet ALPHA[0..capacity+1] (all-zero key, first-byte-only key, last-byte-only key, all-ones key); EVERY history of length <= 3 (every prefix is compared) whose first step is touch(first key in the name) and whose later steps are any of touch(k)/remove(k)/evict_tail/evict_to_target(grid)/reset with any alphabet key; after every step: len, is_empty, capacity, contains (all keys), full recency order, return values vs a textbook LRU
+// @encodes cascette_client_storage::lru::LruManager::new, cascette_client_storage::lru::LruManager::touch, cascette_client_storage::lru::LruManager::remove, cascette_client_storage::lru::LruManager::evict_tail, cascette_client_storage::lru::LruManager::evict_to_target, cascette_client_storage::lru::LruManager::reset, cascette_client_storage::lru::LruManager::contains, cascette_client_storage::lru::LruManager::len, cascette_client_storage::lru::LruManager::is_empty, cascette_client_storage::lru::LruManager::for_each_entry, cascette_client_storage::lru::LruManager::unlink, cascette_client_storage::lru::LruManager::link_at_head, cascette_client_storage::lru::LruManager::detach_tail
+// @assumes hook H6: under cfg(kani) LruManager::key_map is a std BTreeMap instead of the std HashMap (same map contract; hashbrown does not finish); tracing neutralised (3 stubs); representation invariant read through the add-only cfg(kani) hook LruManager::verif_invariants_ok (walk tail->head via next: prev links, end at head, key_map[key]==slot, free list disjoint/cleared, list+free == slots) asserted after every step; for_each_entry is compared on the non-zero keys only (a live all-zero key is skipped: known finding KF-2, c17_kf2_*); evict_to_target arguments from the 3-point grid (7,7)/(8,7)/(1,0) = exactly one / two / all entries (fully symbolic arguments: c17_evict_to_target_sym_*)
+// @catches touch not moving an existing key to the head, wrong victim on a full LRU, unlink/link_at_head pointer mistakes (head/tail/middle, incl. a wrong `prev` back-pointer that stays latent for the public observers), remove or reset not returning slots to the free list, stale key_map entries after eviction, evict_to_target loop boundary (<= vs <), len/contains/order disagreeing with each other, capacity exceeded, key compares that ignore the last byte or treat the all-zero key as absent
 lru_seq!(c17_hist_c3_t2_tl_a, 3, 4, [T2 TL A]);
 lru_seq!(c17_hist_c3_t2_th_a, 3, 4, [T2 TH A]);
 lru_seq!(c17_hist_c3_t2_r_a, 3, 4, [T2 R A]);
